@@ -7,6 +7,13 @@
 //! Queries are chosen without ties (never equidistant from two edges / faces with different answers).
 //! Ill-conditioned part: points far along a surface point's normal but (nearly) on the normal line, points 1e-7 .. 1e-2
 //! off mesh edges with oblique offsets, a UV-mapped mesh (uv_with_tol with Some(T) / uv_to_3d), all under translations up to 1e3.
+//! ROUND 3: (a) 36 isometries with TINY non-zero rotations (1e-7 .. 1e-5 rad) on data FAR from the origin (radius 1e3): point
+//! lists, point clouds (points move by the full isometry, normals rotate), surface points, planes, curves, meshes (box, its
+//! triangle soup, touching appended boxes); (a') Mesh::transform on meshes with COINCIDENT vertices under all 76 isometries:
+//! vertex i of T(mesh) == T * vertex i, faces unchanged; (b) 2D signed deviations (metrology::line_profiles) 1e-7 .. 1e-2 off
+//! outside corners / open ends / edge interiors with translations up to 1e3; (c) capped projections for queries just outside
+//! the extreme corners / edges of the bounding box with caps small against the mesh (a quick-reject must not change the answer
+//! with the pose).
 use super::{close, Report};
 use crate::common::points::{dist, mid_point, transform_points};
 use crate::common::DistMode;
@@ -585,8 +592,262 @@ fn uv_mapped_mesh(r: &mut Report, isos: &[I3]) {
     }
 }
 
+
+// ------------------------------------------------------------------------------------------------ round 3
+/// rotations that are TINY but not zero (1e-7 .. 1e-5 rad: the quaternion's scalar part differs from 1 by less than 1e-10, the
+/// rotation matrix from the identity by less than 1e-5) about 3 axes, with and without a translation
+pub fn tiny_isos3() -> Vec<I3> {
+    let axes = [("z", u3(0.0, 0.0, 1.0)), ("x", u3(1.0, 0.0, 0.0)), ("(1,2,3)", u3(1.0, 2.0, 3.0))];
+    let angs = [1.0e-7, -1.0e-6, 3.0e-6, 1.0e-5];
+    let trans = [(0.0, 0.0, 0.0), (0.5, -0.25, 2.0), (1000.0, -500.0, 250.0)];
+    let mut out = vec![];
+    for (an, ax) in axes.iter() { for a in angs { for (x, y, z) in trans {
+        out.push(I3 { name: format!("T=[rotation by {:?} rad about {} then +({},{},{})]", a, an, x, y, z), t: Iso3::from_parts(Translation3::new(x, y, z), UnitQuaternion::from_axis_angle(ax, a)), exact: false });
+    } } }
+    out
+}
+fn tiny_isos2() -> Vec<I2> {
+    let mut out = vec![];
+    for a in [1.0e-7, -1.0e-6, 3.0e-6, 1.0e-5] { for (x, y) in [(0.0, 0.0), (3.0, -1.5), (1000.0, -250.0)] {
+        out.push(I2 { name: format!("T=[rotation by {:?} rad then +({},{})]", a, x, y), t: Iso2::from_parts(Translation2::new(x, y), UnitComplex::new(a)) });
+    } }
+    out
+}
+fn shifted_box(w: f64, h: f64, d: f64, at: Vector3, solid: bool) -> Mesh {
+    let b = Mesh::create_box(w, h, d, solid);
+    Mesh::new(b.vertices().iter().map(|p| p + at).collect(), b.faces().to_vec(), solid)
+}
+/// the same surface as `m` as a triangle soup: every face owns its three vertices (coincident positions, 3 * faces vertices)
+fn soup(m: &Mesh) -> Mesh {
+    let mut v = vec![]; let mut f = vec![];
+    for t in m.faces() { let b = v.len() as u32; for k in 0..3 { v.push(m.vertices()[t[k] as usize]); } f.push([b, b + 1, b + 2]); }
+    Mesh::new(v, f, m.is_solid())
+}
+fn mesh_moves(r: &mut Report, mname: &str, base: &Mesh, it: &I3, s: &Iso3) {
+    let t = &it.t;
+    r.case();
+    let d = || format!("{} ({} vertices, {} faces) {}", mname, base.vertices().len(), base.faces().len(), it.name);
+    let mut moved = base.clone(); moved.transform(t);
+    r.check(moved.vertices().len() == base.vertices().len(), "Mesh::transform keeps the number of vertices (coincident vertices are not merged)", d);
+    let bad = moved.vertices().iter().zip(base.vertices().iter()).position(|(a, b)| !cp3(a, &(t * b)));
+    r.check(moved.vertices().len() == base.vertices().len() && bad.is_none(), "Mesh::transform: vertex i of the moved mesh is T * vertex i (full isometry: rotation and translation)", || { let k = bad.unwrap_or(0); format!("{}: vertex {} {:?} became {:?}, T * vertex = {:?}", d(), k, base.vertices()[k].coords.as_slice(), moved.vertices().get(k).map(|p| p.coords.as_slice().to_vec()), (t * base.vertices()[k]).coords.as_slice()) });
+    r.check(moved.faces() == base.faces() && moved.is_solid() == base.is_solid(), "Mesh::transform keeps the faces (same index triples in the same order) and the solid flag", d);
+    let mut back = moved.clone(); back.transform(&t.inverse());
+    r.check(back.vertices().len() == base.vertices().len() && back.vertices().iter().zip(base.vertices().iter()).all(|(a, b)| cp3(a, b)), "Mesh: T then T^-1 restores the vertices", d);
+    let mut seq = base.clone(); seq.transform(s); seq.transform(t);
+    let mut comp = base.clone(); comp.transform(&(t * s));
+    r.check(seq.vertices().len() == comp.vertices().len() && seq.vertices().iter().zip(comp.vertices().iter()).all(|(a, b)| cp3(a, b)), "Mesh: transforming by a composition equals transforming in sequence", d);
+}
+
+/// (a) every bulk transform under TINY rotations, on data far from the origin (radius 1e3) as well as near it
+fn tiny_rotations_far_data(r: &mut Report) {
+    let isos = tiny_isos3();
+    let pts = vec![p3(1000.0, 0.0, 0.0), p3(0.0, 1000.0, 0.0), p3(600.0, 800.0, 0.0), p3(0.0, -600.0, 800.0), p3(360.0, 480.0, 800.0), p3(-640.0, 0.0, -768.0), p3(1.0, 0.5, -2.0)];
+    let normals = vec![u3(0.0, 0.0, 1.0), u3(1.0, 2.0, 2.0), u3(-1.0, 1.0, 0.0), u3(2.0, 3.0, 6.0), u3(1.0, 0.0, 0.0), u3(0.0, -3.0, 4.0), u3(0.0, 1.0, 0.0)];
+    let far_box = shifted_box(2.0, 3.0, 4.0, Vector3::new(600.0, 0.0, 800.0), false);
+    let mut touching = shifted_box(2.0, 3.0, 4.0, Vector3::new(-640.0, 0.0, -768.0), false);
+    touching.append(&shifted_box(1.0, 3.0, 4.0, Vector3::new(-638.0, 0.0, -768.0), false)).unwrap();
+    let meshes: Vec<(&str, Mesh)> = vec![
+        ("box 2x3x4 at (600,0,800)", far_box.clone()), ("triangle soup of the box 2x3x4 at (600,0,800)", soup(&far_box)),
+        ("box 2x3x4 at (-640,0,-768) + appended box 1x3x4 sharing its x = -638 face", touching),
+        ("Mesh::create_box(2, 3, 4, is_solid=true)", Mesh::create_box(2.0, 3.0, 4.0, true)),
+    ];
+    let c3 = Curve3::from_points(&[p3(1000.0, 0.0, 0.0), p3(1000.0, 3.0, 1.0), p3(996.0, 3.0, 4.0), p3(990.0, -5.0, 4.0)], 1e-6).unwrap();
+    let pls = [Plane3::new(u3(0.0, 0.0, 1.0), 800.0), Plane3::new(u3(1.0, 2.0, 2.0), 1.5), Plane3::new(u3(3.0, -4.0, 0.0), -1000.0)];
+    for (i, it) in isos.iter().enumerate() { let t = &it.t; let s = &isos[partner(i, isos.len())].t;
+        r.case();
+        let d = || format!("points {:?} {}", pts.iter().map(|p| (p.x, p.y, p.z)).collect::<Vec<_>>(), it.name);
+        let a = transform_points(&pts, t); let b = (&pts).transform_by(t);
+        r.check(a.len() == pts.len() && b.len() == pts.len() && (0..pts.len()).all(|k| cp3(&a[k], &(t * pts[k])) && cp3(&b[k], &(t * pts[k]))), "transform_points / TransformBy move point k by T", d);
+        for has_n in [true, false] {
+            let mut pc = PointCloud::try_new(pts.clone(), if has_n { Some(normals.clone()) } else { None }, None).unwrap();
+            let dc = || format!("PointCloud(normals={}) {}", has_n, d());
+            pc.transform(t);
+            let bad = pc.points().iter().zip(pts.iter()).position(|(m, p)| !cp3(m, &(t * p)));
+            r.check(pc.points().len() == pts.len() && bad.is_none(), "PointCloud::transform: every point moves by T", || { let k = bad.unwrap_or(0); format!("{}: point {} became {:?}, T * point = {:?}", dc(), k, pc.points()[k].coords.as_slice(), (t * pts[k]).coords.as_slice()) });
+            r.check(pc.normals().is_some() == has_n && pc.normals().map_or(true, |ns| ns.len() == normals.len() && ns.iter().zip(normals.iter()).all(|(m, n)| cv3(&m.into_inner(), &(t * n.into_inner())))), "PointCloud::transform: normals only rotate", dc);
+            let mut seq = PointCloud::try_new(pts.clone(), if has_n { Some(normals.clone()) } else { None }, None).unwrap();
+            seq.transform(s); seq.transform(t);
+            let mut comp = PointCloud::try_new(pts.clone(), if has_n { Some(normals.clone()) } else { None }, None).unwrap();
+            comp.transform(&(t * s));
+            r.check(seq.points().iter().zip(comp.points().iter()).all(|(x, y)| cp3(x, y)) && seq.normals().map_or(true, |ns| ns.iter().zip(comp.normals().unwrap().iter()).all(|(x, y)| cv3(x, y))), "PointCloud: transforming by a composition equals transforming in sequence", dc);
+            pc.transform(&t.inverse());
+            r.check(pc.points().iter().zip(pts.iter()).all(|(m, p)| cp3(m, p)) && pc.normals().map_or(true, |ns| ns.iter().zip(normals.iter()).all(|(m, n)| cv3(m, n))), "PointCloud: T then T^-1 restores points and normals", dc);
+        }
+        for (p, n) in pts.iter().zip(normals.iter()) {
+            let sp = SurfacePoint3::new(*p, *n); let m = sp.transformed(t); let m2 = t * sp;
+            r.check(cp3(&m.point, &(t * sp.point)) && cv3(&m.normal.into_inner(), &(t * sp.normal.into_inner())) && cp3(&m2.point, &m.point) && cv3(&m2.normal, &m.normal), "SurfacePoint3::transformed: the point moves by T, the normal only rotates", || format!("SurfacePoint3 {{ point: {:?}, normal: {:?} }} {}", p.coords.as_slice(), n.as_slice(), it.name));
+        }
+        for pl in pls.iter() {
+            let dp = || format!("Plane3 {{ normal: {:?}, d: {} }} {}", pl.normal.as_slice(), pl.d, it.name);
+            let m = pl.transform_by(t);
+            r.check(cv3(&m.normal.into_inner(), &(t * pl.normal.into_inner())), "Plane3::transform_by: the normal only rotates", dp);
+            for q in pts.iter() {
+                let on = pl.project_point(q); let ton = t * on;
+                r.check(m.signed_distance_to_point(&ton).abs() <= 1e-9 * (1.0 + ton.coords.norm()), "Plane3::transform_by: points of the plane move onto the moved plane", || format!("{} point of the plane {:?}", dp(), on.coords.as_slice()));
+                r.check(close(m.signed_distance_to_point(&(t * q)), pl.signed_distance_to_point(q)), "Plane3::transform_by: T.p is as far (signed) from T.plane as p from the plane", || format!("{} query {:?}", dp(), q.coords.as_slice()));
+            }
+        }
+        let mc = c3.transformed_by(t);
+        r.check(mc.count() == c3.count() && mc.points().iter().zip(c3.points().iter()).all(|(a, b)| cp3(a, &(t * b))), "Curve3::transformed_by moves every vertex by T", || format!("Curve3 {:?} {}", c3.points().iter().map(|p| (p.x, p.y, p.z)).collect::<Vec<_>>(), it.name));
+        for (mname, base) in meshes.iter() {
+            mesh_moves(r, mname, base, it, s);
+            // closest points on the moved mesh (queries 1.5 .. 3 from the surface, tie-free)
+            let mut moved = base.clone(); moved.transform(t);
+            let c = base.vertices().iter().fold(Vector3::zeros(), |a, p| a + p.coords) / base.vertices().len() as f64;
+            for off in [Vector3::new(0.25, 0.5, 4.0), Vector3::new(-3.5, 0.25, -0.5), Vector3::new(0.25, 4.0, 0.75)] {
+                let q = Point3::from(c + off); let tq = t * q;
+                let dq = || format!("{} {} query {:?}", mname, it.name, q.coords.as_slice());
+                r.check(cp3(&moved.point_closest_to(&tq), &(t * base.point_closest_to(&q))), "Mesh::point_closest_to commutes with T", dq);
+                let (a, b) = (base.surf_closest_to(&q), moved.surf_closest_to(&tq));
+                r.check(cv3(&b.normal.into_inner(), &(t * a.normal.into_inner())), "Mesh::surf_closest_to commutes with T (point moves, normal only rotates)", dq);
+            }
+        }
+    }
+    let isos = tiny_isos2();
+    let pts2 = vec![p2(1000.0, 0.0), p2(996.0, 3.0), p2(600.0, 800.0), p2(590.0, 790.0)];
+    let c2 = Curve2::from_points(&pts2, 1e-6, false).unwrap();
+    for it in isos.iter() { let t = &it.t;
+        r.case();
+        let d = || format!("Curve2 / Segment2 / SurfacePoint2 on points {:?} {}", pts2.iter().map(|p| (p.x, p.y)).collect::<Vec<_>>(), it.name);
+        let m = c2.transformed_by(t);
+        r.check(m.count() == c2.count() && m.points().iter().zip(c2.points().iter()).all(|(a, b)| cp2(a, &(t * b))), "Curve2::transformed_by moves every vertex by T", d);
+        let sg = Segment2 { a: pts2[0], b: pts2[2] }; let ms = sg.transform_by(t);
+        r.check(cp2(&ms.a, &(t * sg.a)) && cp2(&ms.b, &(t * sg.b)), "Segment2::transform_by moves both end points by T", d);
+        let sp = SurfacePoint2::new(pts2[1], u2(3.0, 4.0)); let msp = sp.transformed(t);
+        r.check(cp2(&msp.point, &(t * sp.point)) && cv2(&msp.normal.into_inner(), &(t * sp.normal.into_inner())), "SurfacePoint2::transformed: the point moves by T, the normal only rotates", d);
+    }
+}
+
+/// (a') Mesh::transform on meshes with coincident vertices under the general isometry family
+fn meshes_with_coincident_vertices(r: &mut Report, isos: &[I3]) {
+    let bx = Mesh::create_box(2.0, 3.0, 4.0, false);
+    let mut touching = Mesh::create_box(2.0, 3.0, 4.0, false);
+    touching.append(&shifted_box(1.0, 3.0, 4.0, Vector3::new(2.0, 0.0, 0.0), false)).unwrap();
+    let mut twice = Mesh::create_box(2.0, 3.0, 4.0, true);
+    twice.append(&Mesh::create_box(2.0, 3.0, 4.0, true)).unwrap();
+    let meshes: Vec<(&str, Mesh)> = vec![("triangle soup of Mesh::create_box(2, 3, 4)", soup(&bx)), ("box 2x3x4 + appended box 1x3x4 at (2,0,0) sharing the x = 2 face", touching),
+        ("box 2x3x4 appended to itself (every vertex twice)", twice), ("triangle soup of the open roof", soup(&roof(false)))];
+    for (i, it) in isos.iter().enumerate() { let s = &isos[partner(i, isos.len())].t;
+        for (mname, base) in meshes.iter() { mesh_moves(r, mname, base, it, s); }
+    }
+}
+
+/// (b) 2D signed deviations (metrology::line_profiles) of points 1e-7 .. 1e-2 off a curve: off OUTSIDE CORNERS and open ends with
+/// offsets strictly inside the cone of the two edge normals (never parallel to an edge normal), and off edge interiors along
+/// the normal (either side); rotations x translations up to 1e3.  Below the 1e-6 epsilon only edge interiors.
+fn deviations2_near_corners(r: &mut Report) {
+    use crate::metrology::line_profiles::{line_surface_deviations, point_curve2_deviation};
+    struct Q { base: Point2, dir: Vector2, sign: f64, vertex: bool, name: &'static str }
+    let v = |x: f64, y: f64| Vector2::new(x, y);
+    let square = Curve2::from_points(&[p2(0.0, 0.0), p2(2.0, 0.0), p2(2.0, 2.0), p2(0.0, 2.0), p2(0.0, 0.0)], 1e-6, false).unwrap();
+    let qs_square = vec![
+        Q { base: p2(2.0, 0.0), dir: v(1.0, -2.0), sign: 1.0, vertex: true, name: "off the outside corner (2,0)" },
+        Q { base: p2(2.0, 0.0), dir: v(3.0, -1.0), sign: 1.0, vertex: true, name: "off the outside corner (2,0)" },
+        Q { base: p2(2.0, 2.0), dir: v(1.0, 1.0), sign: 1.0, vertex: true, name: "off the outside corner (2,2) along the bisector" },
+        Q { base: p2(0.0, 2.0), dir: v(-1.0, 3.0), sign: 1.0, vertex: true, name: "off the outside corner (0,2)" },
+        Q { base: p2(0.0, 0.0), dir: v(-2.0, -1.0), sign: 1.0, vertex: true, name: "off the outside corner (0,0) where the closed curve starts and ends" },
+        Q { base: p2(1.25, 0.0), dir: v(0.0, -1.0), sign: 1.0, vertex: false, name: "off the edge y=0, outside" },
+        Q { base: p2(2.0, 0.75), dir: v(-1.0, 0.0), sign: -1.0, vertex: false, name: "off the edge x=2, inside" },
+    ];
+    let open = Curve2::from_points(&[p2(0.0, 0.0), p2(3.0, 0.0), p2(3.0, 2.0), p2(5.0, 3.5)], 1e-6, false).unwrap();
+    let qs_open = vec![
+        Q { base: p2(3.0, 0.0), dir: v(2.0, -1.0), sign: 1.0, vertex: true, name: "off the outside corner (3,0)" },
+        Q { base: p2(3.0, 0.0), dir: v(1.0, -3.0), sign: 1.0, vertex: true, name: "off the outside corner (3,0)" },
+        Q { base: p2(0.0, 0.0), dir: v(-2.0, -1.0), sign: 1.0, vertex: true, name: "beyond the open end (0,0), on the normal side" },
+        Q { base: p2(5.0, 3.5), dir: v(3.0, 1.0), sign: 1.0, vertex: true, name: "beyond the open end (5,3.5), on the normal side" },
+        Q { base: p2(4.0, 2.75), dir: v(-3.0, 4.0), sign: -1.0, vertex: false, name: "off the edge (3,2)-(5,3.5), against the normal" },
+        Q { base: p2(1.5, 0.0), dir: v(0.0, 1.0), sign: -1.0, vertex: false, name: "off the edge y=0, against the normal" },
+    ];
+    let mut isos: Vec<I2> = vec![];
+    for (n, a) in [("0", 0.0), ("90", FRAC_PI_2), ("30", FRAC_PI_6), ("-45", -FRAC_PI_4), ("2rad", 2.0), ("1e-5rad", 1.0e-5), ("180", PI)] {
+        for (tx, ty) in [(0.0, 0.0), (1000.0, -250.0), (-600.0, 800.0), (0.0, 1000.0)] {
+            isos.push(I2 { name: format!("T=[rot {} then +({},{})]", n, tx, ty), t: Iso2::from_parts(Translation2::new(tx, ty), UnitComplex::new(a)) });
+        }
+    }
+    let offsets = [1e-7, 3e-6, 1e-5, 1e-4, 1e-3, 1e-2];
+    for (cname, c, qs) in [("closed square (0,0),(2,0),(2,2),(0,2)", &square, &qs_square), ("open polyline (0,0),(3,0),(3,2),(5,3.5)", &open, &qs_open)] {
+        for it in isos.iter() { let t = &it.t;
+            let m = c.transformed_by(t);
+            for q in qs.iter() { for h in offsets {
+                if h < 1e-6 && q.vertex { continue; }
+                r.case();
+                let p = q.base + q.dir.normalize() * h;
+                let tp = t * p;
+                let a = point_curve2_deviation(&c.at_closest_to_point(&p), &p);
+                let b = point_curve2_deviation(&m.at_closest_to_point(&tp), &tp);
+                let d = || format!("{} {} query {:?} = {:?} + {:?} * unit{:?} ({}): deviation {:?} (reference point {:?}, direction {:?}) in the reference frame, {:?} (reference point {:?}, direction {:?}) after moving curve and query by T", cname, it.name, p.coords.as_slice(), q.base.coords.as_slice(), h, q.dir.as_slice(), q.name, a.deviation, a.surface.point.coords.as_slice(), a.surface.normal.as_slice(), b.deviation, b.surface.point.coords.as_slice(), b.surface.normal.as_slice());
+                r.check(close(b.deviation, a.deviation), "point_curve2_deviation 1e-7..1e-2 off a corner / edge: the signed deviation is invariant (1e-9 absolute)", d);
+                r.check(close(a.deviation, q.sign * h) && close(b.deviation, q.sign * h), "point_curve2_deviation 1e-7..1e-2 off a corner / edge: the signed deviation is the signed distance from the curve in every frame (1e-9 absolute)", d);
+                r.check(cp2(&b.surface.point, &(t * a.surface.point)), "point_curve2_deviation: the reference point moves with T", d);
+                // the direction of an offset of size h between coordinates of size |T p| is known to rounding / h only
+                let tol = 1e-9 + 2e-12 * (1.0 + tp.coords.norm()) / h;
+                r.check(h < 1e-6 || (b.surface.normal.into_inner() - t * a.surface.normal.into_inner()).norm() <= tol, "point_curve2_deviation: the measurement direction only rotates", d);
+                let set = line_surface_deviations(&m, &[tp], None);
+                r.check(set.len() == 1 && close(set[0].deviation, a.deviation), "line_surface_deviations 1e-7..1e-2 off a corner / edge: the signed deviation is invariant (1e-9 absolute)", d);
+            } }
+        }
+    }
+}
+
+/// (c) capped projections for queries just outside the extreme corners / edges of the mesh's bounding box, caps small against
+/// the mesh size: the query is corner (edge midpoint) + h * u with u strictly inside the cone of the adjacent face normals, so
+/// the closest point is that corner (midpoint) and the distance is h by construction
+fn capped_queries_near_bbox_corners(r: &mut Report, isos: &[I3]) {
+    struct Q { foot: Point3, dir: Vector3, name: String }
+    let boxq = |w: f64, h: f64, d: f64| -> Vec<Q> {
+        let mut out = vec![];
+        for sx in [0.0, 1.0] { for sy in [0.0, 1.0] { for sz in [0.0, 1.0] {
+            let s = Vector3::new(2.0 * sx - 1.0, 2.0 * sy - 1.0, 2.0 * sz - 1.0);
+            let c = p3(sx * w, sy * h, sz * d);
+            for u in [Vector3::new(1.0, 1.0, 1.0), Vector3::new(1.0, 2.0, 3.0), Vector3::new(3.0, 1.0, 2.0)] {
+                out.push(Q { foot: c, dir: Vector3::new(u.x * s.x, u.y * s.y, u.z * s.z), name: format!("off the corner ({},{},{})", c.x, c.y, c.z) });
+            }
+        } } }
+        // the 4 edges parallel to z at their midpoint, the 4 parallel to x at a quarter
+        for sx in [0.0, 1.0] { for sy in [0.0, 1.0] {
+            let (a, b) = (2.0 * sx - 1.0, 2.0 * sy - 1.0);
+            out.push(Q { foot: p3(sx * w, sy * h, d * 0.5), dir: Vector3::new(a, 2.0 * b, 0.0), name: format!("off the edge x={},y={}", sx * w, sy * h) });
+            out.push(Q { foot: p3(w * 0.25, sx * h, sy * d), dir: Vector3::new(0.0, 3.0 * a, b), name: format!("off the edge y={},z={}", sx * h, sy * d) });
+        } }
+        out
+    };
+    let meshes: Vec<(String, Mesh, Vec<Q>)> = vec![
+        ("Mesh::create_box(2, 3, 4, is_solid=false)".to_string(), Mesh::create_box(2.0, 3.0, 4.0, false), boxq(2.0, 3.0, 4.0)),
+        ("Mesh::create_box(2, 3, 4, is_solid=true)".to_string(), Mesh::create_box(2.0, 3.0, 4.0, true), boxq(2.0, 3.0, 4.0)),
+        ("Mesh::create_box(16, 1, 0.5, is_solid=false)".to_string(), Mesh::create_box(16.0, 1.0, 0.5, false), boxq(16.0, 1.0, 0.5)),
+        ("Mesh::create_box(3, 3, 3, is_solid=false)".to_string(), Mesh::create_box(3.0, 3.0, 3.0, false), boxq(3.0, 3.0, 3.0)),
+    ];
+    let hs = [0.01, 0.05, 0.2];
+    let caps = [0.025, 0.1, 0.5];
+    for (mname, base, qs) in meshes.iter() {
+        for it in isos.iter() { let t = &it.t; let ti = t.inverse();
+            let mut moved = base.clone(); moved.transform(t);
+            for q in qs.iter() { for h in hs {
+                r.case();
+                let p = q.foot + q.dir.normalize() * h; let tp = t * p; let p_other = ti * p;
+                for cap in caps {
+                    let want = h <= cap;
+                    let a = base.project_with_max_dist(&p, cap); let b = moved.project_with_max_dist(&tp, cap);
+                    let d = || format!("{} {} query {:?} = {:?} + {:?} * unit{:?} ({}), max_dist {:?}: {} in the reference frame, {} after moving mesh and query by T", mname, it.name, p.coords.as_slice(), q.foot.coords.as_slice(), h, q.dir.as_slice(), q.name, cap,
+                        a.as_ref().map_or("no projection".to_string(), |x| format!("projection {:?}", x.0.point.coords.as_slice())), b.as_ref().map_or("no projection".to_string(), |x| format!("projection {:?}", x.0.point.coords.as_slice())));
+                    r.check(a.is_some() == b.is_some(), "Mesh::project_with_max_dist near an extreme corner / edge of the bounding box: moving mesh and query together does not change whether a projection is found", d);
+                    r.check(a.is_some() == want && b.is_some() == want, "Mesh::project_with_max_dist near an extreme corner / edge of the bounding box: a projection is found exactly when the distance is within the cap, in every frame", d);
+                    if let (Some(x), Some(y)) = (&a, &b) {
+                        r.check(cp3(&y.0.point, &(t * x.0.point)) && close(dist(&y.0.point, &tp), dist(&x.0.point, &p)) && close(dist(&x.0.point, &p), h), "Mesh::project_with_max_dist near an extreme corner / edge of the bounding box: the closest point moves by T, the distance is the same", d);
+                    }
+                    let direct = base.project_with_tol(&p, cap, 1.5, None); let framed = base.project_with_tol(&p_other, cap, 1.5, Some(t)); let on_moved = moved.project_with_tol(&tp, cap, 1.5, None);
+                    r.check(direct.is_some() == want && framed.is_some() == want && on_moved.is_some() == want, "Mesh::project_with_tol (max_angle 1.5) near an extreme corner / edge of the bounding box: accepted exactly when the distance is within the cap - directly, given in another frame (Some(T)), and with mesh and query moved together", d);
+                    let idx = moved.indices_in_tol(&[tp, t * q.foot], cap, 1.5, None);
+                    r.check(idx == if want { vec![0, 1] } else { vec![1] }, "Mesh::indices_in_tol near an extreme corner / edge of the bounding box selects exactly the points within the cap", d);
+                }
+            } }
+        }
+    }
+}
+
 pub fn run() -> Option<Report> {
-    let mut r = Report::new("isometries: 19 rotations (identity, quarter turns about x/y/z, 3 more cube-group elements, 30/45 degrees about an axis, 0.7 rad about (1,2,3), (1,1,1)->x) x 4 translations (up to (1000,-500,250)) in 3D, 8 rotations x 3 translations in 2D; entities with small integer / dyadic coordinates: 3 surface points per dimension, 4 planes, 3 segments, a 4-point cloud (with/without normals and colours), 5 Distance2 (direction None / explicit / against a->b), 7 Curve2 and 7 Curve3 point lists (open, closed, force-closed, vertices spaced 0.7..1.2 tol along axes and diagonals), a 2x3x4 box mesh (solid and not) with 7 tie-free queries; 3-4 query points per entity; all comparisons to 1e-9 relative; ILL-CONDITIONED: planar_distance / scalar_projection of points 10, 40, -75 along the normal and 0, 1e-6, 1e-5, 1e-4 off the normal line (3 surface points per dimension); signed deviations (ToPoint; ToPlane on rim edges) of points 1e-7, 3e-6, 1e-5, 1e-4, 1e-3, 1e-2 off box edges / a box corner / rim edges and a rim corner of an open roof mesh with offsets oblique to the face normal (below 1e-6 only rim edges); a UV-mapped open roof mesh with 5 queries x 3 (max_dist, max_angle): uv_with_tol with Some(T), on the moved mesh, and back through uv_to_3d; all under the same 76 isometries, 1e-9 absolute");
+    let mut r = Report::new("isometries: 19 rotations (identity, quarter turns about x/y/z, 3 more cube-group elements, 30/45 degrees about an axis, 0.7 rad about (1,2,3), (1,1,1)->x) x 4 translations (up to (1000,-500,250)) in 3D, 8 rotations x 3 translations in 2D; entities with small integer / dyadic coordinates: 3 surface points per dimension, 4 planes, 3 segments, a 4-point cloud (with/without normals and colours), 5 Distance2 (direction None / explicit / against a->b), 7 Curve2 and 7 Curve3 point lists (open, closed, force-closed, vertices spaced 0.7..1.2 tol along axes and diagonals), a 2x3x4 box mesh (solid and not) with 7 tie-free queries; 3-4 query points per entity; all comparisons to 1e-9 relative; ILL-CONDITIONED: planar_distance / scalar_projection of points 10, 40, -75 along the normal and 0, 1e-6, 1e-5, 1e-4 off the normal line (3 surface points per dimension); signed deviations (ToPoint; ToPlane on rim edges) of points 1e-7, 3e-6, 1e-5, 1e-4, 1e-3, 1e-2 off box edges / a box corner / rim edges and a rim corner of an open roof mesh with offsets oblique to the face normal (below 1e-6 only rim edges); a UV-mapped open roof mesh with 5 queries x 3 (max_dist, max_angle): uv_with_tol with Some(T), on the moved mesh, and back through uv_to_3d; all under the same 76 isometries, 1e-9 absolute; ROUND 3: 36 isometries with TINY non-zero rotations (1e-7, -1e-6, 3e-6, 1e-5 rad about z / x / (1,2,3) x translations none, (0.5,-0.25,2), (1000,-500,250)) and 12 such in 2D, on data far from the origin (7 points with normals at radius 1e3 and one near it, a Curve3 / Curve2 there, 3 planes, meshes: box 2x3x4 at (600,0,800), its triangle soup, two touching appended boxes at (-640,0,-768), a solid box at the origin): every bulk transform (points move by the full isometry, normals only rotate, T^-1 restores, composition) and closest points on the moved mesh; all entity checks of the first part repeated under these tiny isometries; Mesh::transform on meshes with coincident vertices (triangle soups of the box and of the open roof, touching appended boxes, a box appended to itself) under all 76 isometries: vertex count kept, vertex i == T * vertex i, faces and solid flag kept, inverse, composition; point_curve2_deviation / line_surface_deviations of points 1e-7 (edge interiors only), 3e-6, 1e-5, 1e-4, 1e-3, 1e-2 off 5 outside corners / 2 open ends (offsets strictly inside the cone of the edge normals) and 4 edge interiors of a closed square and an open polyline under 7 rotations x 4 translations (up to 1e3): deviation invariant and equal to the signed distance (1e-9 absolute), reference point moves, direction rotates (1e-9 + rounding of the offset direction); Mesh::project_with_max_dist / project_with_tol (direct, Some(T), moved) / indices_in_tol for queries 0.01, 0.05, 0.2 outside the 8 corners (3 directions inside the normal cone) and 8 edges of 4 boxes (2x3x4 solid and not, 16x1x0.5, 3x3x3) with caps 0.025, 0.1, 0.5 under all 76 isometries: found exactly when the distance is within the cap, in every frame");
     let i3 = isos3(); let i2 = isos2();
     surface_points3(&mut r, &i3);
     surface_points2(&mut r, &i2);
@@ -600,5 +861,20 @@ pub fn run() -> Option<Report> {
     planar_far_along_normal(&mut r, &i3, &i2);
     deviations_near_edges(&mut r, &i3);
     uv_mapped_mesh(&mut r, &i3);
+    tiny_rotations_far_data(&mut r);
+    // the entity checks above once more under the TINY rotations (near-origin data)
+    let (t3, t2) = (tiny_isos3(), tiny_isos2());
+    surface_points3(&mut r, &t3);
+    surface_points2(&mut r, &t2);
+    planes(&mut r, &t3);
+    segments(&mut r, &t2);
+    point_lists(&mut r, &t3);
+    distances(&mut r, &t3, &t2);
+    curves2(&mut r, &t2);
+    curves3(&mut r, &t3);
+    meshes(&mut r, &t3);
+    meshes_with_coincident_vertices(&mut r, &i3);
+    deviations2_near_corners(&mut r);
+    capped_queries_near_bbox_corners(&mut r, &i3);
     Some(r)
 }
